@@ -2,7 +2,7 @@
 # tools/seed_eval.sh <ID> [<name>]  : evaluate the sub-agent result in /tmp/wt-<ID>/MUTANT
 #  1. patch applies to a fresh scratch worktree of /repo HEAD; existing suite passes with it
 #  2. demo fails with the patch, passes without
-#  3. the property's quick check (two seeds) on /repo with the patch applied; always reverted
+#  3. the property's quick check (two seeds) against the patched scratch worktree (VERIF_REPO)
 # results are printed; nothing is written to /verif (copy by hand once confirmed)
 ID="$1"; SRC="/tmp/wt-$ID/MUTANT"; W="/tmp/eval-$ID"
 set -u
@@ -19,10 +19,8 @@ echo "== demo WITH patch (must fail)"
 PYTHONPATH="$W/src" /venv/bin/python -m pytest -q -p no:cacheprovider --timeout=300 MUTANT/demo_test.py 2>&1 | tail -2
 echo "== existing suite WITH patch (must pass)"
 PYTHONPATH="$W/src" /venv/bin/python -m pytest -q -p no:cacheprovider --timeout=900 tests 2>&1 | tail -2
-echo "== /verif quick check on /repo with the patch (seeds 0 and 3)"
-git -C /repo apply "$SRC/patch.diff" || { echo "PATCH DOES NOT APPLY TO /repo"; exit 2; }
+echo "== /verif quick check against the patched scratch worktree (VERIF_REPO=$W; seeds 0 and 3)"
 for S in 0 3; do
-  ( cd /verif && VERIF_SEED=$S ./check "$ID" 2>&1 | grep -v Warning | cut -c1-300 | head -6; echo "check exit=$?" )
+  ( cd /verif && VERIF_REPO="$W" VERIF_SEED=$S ./check "${2:-$ID}" > "/tmp/eval-$ID.out" 2>&1; echo "check exit=$?"; grep -v Warning "/tmp/eval-$ID.out" | cut -c1-300 | head -6 )
 done
-git -C /repo checkout -- .
-git -C /repo status --short
+rm -f "/tmp/eval-$ID.out"
